@@ -176,7 +176,8 @@ class P(flow.Plan):
         for i in range(n):
             rng = _r.Random(sd * 6007 + i)
             exact = i % 3 != 2
-            descs = xform_rec.random_descs(rng, rng.randint(8, 20), True) if exact else xform_rec.rotation_descs(rng)
+            descs = xform_rec.random_descs(rng, rng.randint(8, 20), True) if exact else \
+                (xform_rec.rotation_descs(rng) if i % 2 else xform_rec.scale_descs(rng))
             traces.append(xform_rec.run_descs(descs, exact, {"driver": "random", "seed": sd * 6007 + i}))
             inputs.append({"exact": exact, "descs": descs})
         cp = check_c13.P()
@@ -184,12 +185,12 @@ class P(flow.Plan):
         failures, done, _ = flow.validate(cp, traces + ctl)
         if ctl and not [f for f in failures if f[0] == len(traces) and f[2] == "C13_Matrix"]:
             raise flow.MachineryError("C04_Map: the planted wrong matrix was not detected")
-        checks = sum((done[i][1] or {}).get("C13_Matrix", 0) + (done[i][1] or {}).get("C13_Angle", 0) for i in range(len(traces)))
+        checks = sum((done[i][1] or {}).get("C13_Matrix", 0) + (done[i][1] or {}).get("C13_Angle", 0) + (done[i][1] or {}).get("C13_Scale", 0) for i in range(len(traces)))
         if checks == 0:
             raise flow.MachineryError("C04_Map never exercised")
         out, seen = [], set()
         for f in failures:
-            if f[0] < len(traces) and f[2] in ("C13_Matrix", "C13_Angle") and f[0] not in seen:
+            if f[0] < len(traces) and f[2] in ("C13_Matrix", "C13_Angle", "C13_Scale") and f[0] not in seen:
                 seen.add(f[0])
                 out.append({"clause": "C04_Map", "step": f[1], "meta": traces[f[0]]["meta"], "input": inputs[f[0]],
                             "failing_event": {"call": traces[f[0]]["ev"][f[1] - 1].get("call"), "descs": inputs[f[0]]["descs"][:f[1]]}})
@@ -291,7 +292,7 @@ def run(pid, tier, replay=None):
             inp = payload["input"]
             traces = [xform_rec.run_descs(inp["descs"], inp.get("exact", True), {"driver": "replay"})]
             failures, _, _ = flow.validate(check_c13.P(), traces)
-            bad = [f for f in failures if f[2] in ("C13_Matrix", "C13_Angle")]
+            bad = [f for f in failures if f[2] in ("C13_Matrix", "C13_Angle", "C13_Scale")]
             if bad:
                 say("VIOLATION property=C04 replay=%s" % replay)
                 say("  clause C04_Map false at step %d" % bad[0][1])
